@@ -185,7 +185,16 @@ func (sd SpecDifferences) reportChanges(compat Compatibility) io.Reader {
 // ReportAllDiffs lists all the diffs between two specs
 func (sd SpecDifferences) ReportAllDiffs(fmtJSON bool) (io.Reader, error, error) {
 	if fmtJSON {
-		b, err := JSONMarshal(sd)
+		// the differences are collected while ranging over maps: report them in a stable order
+		sorted := make(SpecDifferences, len(sd))
+		copy(sorted, sd)
+		sort.SliceStable(sorted, func(i, j int) bool {
+			if a, b := sorted[i].String(), sorted[j].String(); a != b {
+				return a < b
+			}
+			return sorted[i].Compatibility < sorted[j].Compatibility
+		})
+		b, err := JSONMarshal(sorted)
 		if err != nil {
 			return nil, fmt.Errorf("couldn't print results: %v", err), nil
 		}
